@@ -1,6 +1,6 @@
 (* C12 correspondence: cases written by harness/cmd/c12 are evaluated here by vm_compute. *)
 From Coq Require Import String Ascii.
-From PF Require Export Base.Bytes Graph.Schema Graph.Instance Check.Common.
+From PF Require Export Base.Bytes Graph.Schema Graph.Instance Graph.Values Check.Common.
 Open Scope N_scope.
 Open Scope string_scope.
 
@@ -65,6 +65,19 @@ Definition the_names : list string :=
    "github.com/EliCDavis/polyform/nodes.Struct[github.com/EliCDavis/polyform/generator/artifact.Artifact,github.com/EliCDavis/polyform/generator/artifact/basics.BinaryNodeData]";
    "github.com/EliCDavis/polyform/nodes.Struct[github.com/EliCDavis/polyform/generator/artifact.Artifact,github.com/EliCDavis/polyform/generator/artifact/basics.ImageNodeData]";
    "github.com/EliCDavis/polyform/nodes.Struct[float64,main.MixData]" ].
+
+(* the value kind of the table's Value[T] types (File / Image hold bytes, the rest are not parameters) *)
+Definition the_vkind (k : nat) : option vkind :=
+  nth k [Some KF64; Some KInt; Some KStr; Some KBool; Some KV2; Some KV3; Some KV3Arr; Some KAabb; Some KColor;
+         None; None; Some KF32; Some KStrs] None.
+Definition opt_all {A} (f : A -> bool) (o : option A) : bool := match o with Some x => f x | None => true end.
+(* every current and default value of every Value[T] parameter is the saved form of a typed value of its kind
+   (Graph/Values.v: reads back to a well-formed value that prints as this very tree) *)
+Definition values_canonical (s : inst) : bool :=
+  forallb (fun e => match n_par (snd e), the_vkind (n_ty (snd e)) with
+                    | Some r, Some k => opt_all (canonical k) (pr_val r) && opt_all (canonical k) (pr_def r)
+                    | _, _ => true
+                    end) (i_nodes s).
 
 (* the JSON text of a save, for this table.  Floating-point texts are delegated: the text comparison is made on
    schemas without them ([schema_plain]), so the instance of [show_num] is never consulted *)
@@ -138,7 +151,10 @@ Record contobs := mkcont {
   c_ops : list op; c_oks_live : list bool; c_oks_re : list bool;
   c_live : jval; c_arts_live : jval; c_file_live : jval;
   c_re : option jval; c_arts_re : option jval; c_file_re : option jval;
-  c_digs : list N   (* every save after the continuation: live application x4 + graph level, reloaded likewise *) }.
+  c_digs : list N;  (* every save after the continuation: live application x4 + graph level, reloaded likewise *)
+  c_again : option jval   (* the live application's save made after the continuation (not its first save: saves, the
+                             reads of an autosaving editor, precede the edits) loaded into a fresh application:
+                             its structure; None: rendered identically to c_live *) }.
 
 Inductive case :=
 (* the factory as the harness observes it *)
@@ -186,9 +202,10 @@ Definition corr_ok (c : case) : bool :=
       | Some k =>   (* the model carries on from the state it reached (decode (encode s) = s is a theorem) *)
           let '(s2, moks2) := run_from the_table s (c_ops k) in
           list_eqb Bool.eqb moks2 (c_oks_live k) && jval_eqb (jinst the_table s2) (c_live k)
-          && jval_eqb (jschema (encode the_table s2)) (c_file_live k)
+          && jval_eqb (jschema (encode the_table s2)) (c_file_live k) && values_canonical s2
       end &&
       list_eqb Bool.eqb moks oks
+      && values_canonical s        (* s is compared with the observed structure next: these are the implementation's values *)
       && jval_eqb (jinst the_table s) before
       && jval_eqb (jschema (encode the_table s)) file1
       && (if modulo then jval_eqb (jinst the_table s) (orelse after before)
@@ -213,6 +230,7 @@ Definition prop_ok (c : case) : bool :=
           && jval_eqb (c_arts_live k) (orelse (c_arts_re k) (c_arts_live k))
           && jval_eqb (c_file_live k) (orelse (c_file_re k) (c_file_live k))
           && all_eqN (c_digs k)
+          && jval_eqb (c_live k) (orelse (c_again k) (c_live k))   (* save -> edit -> save -> load: the second save is current *)
       end &&
       reload_ok
       && jval_eqb before (orelse after before)                  (* same nodes, wiring incl. array order, parameter records, producers, metadata *)
